@@ -49,12 +49,41 @@
    the link of its child is known before the child is finalized) - hence 'slot > 0' in (4).
    Earlier theorems (kept): pruning is lossless, the pool retains / accepts nothing below the watermark.
 
-   ORACLE-ONLY (c08_step_ok on implementation traces + model/implementation correspondence): that the
-   POOL drives the tracker with exactly the marks its certificates justify (add_valid_cert / add_block call
-   the operations above; the link certificate -> mark is by inspection of pool_add_cert and the
-   correspondence), the far-future bound, and the parent-ready side (C07). *)
+   POOL LINK, PROVED (Proofs/PoolMarks.v, PoolHeld.v, PoolOracleSpec.v; vocabulary Model/PoolTrace.v) for EVERY pool
+   reachable from pool_init by any pool_step sequence (votes of any signers, received certificates, block
+   registrations, standstill, waits, refused messages; steps that panic change no tracker and add nothing):
+   ghost trace = the certificates of the ECertCreated events of every step (add_valid_cert emits exactly one per
+   certificate it stores, created from votes or received), the (block, parent) pair of every registration that
+   returned, the waiter registrations;  H = held_certs trace,  B = reg_links trace.
+     (6) C08_pool_finality_marks: the pool's finality tracker IS ft_run ft_init (fops_of trace): a notarization mark for
+         b iff a Notar certificate for b is in H, a fast-finalization mark iff a FastFinal certificate, a finalization
+         mark for s iff a Final certificate, add_parent (b, par) iff registered (a block of a decided slot is dropped
+         by the pool; add_parent ignores it too, so it may be listed); as a set the operation list is cert_hist H B,
+         and H is exactly the observable certificate events (C08_ghost_run_is_pool_run: the ghost run is the pool run);
+     (7) C08_pool_finality_certificate_level / _events_certificate_level: under ft_consistent C (cert_hist H B) - the
+         consistency of the certificates held, a property of the SETS H, B only
+         (C08_consistency_premise_is_order_independent) - status of every retained slot = closure of direct
+         finalization (C08_direct_finalization_in_certificates: FastFinal certificate, or Final + Notar certificates)
+         under the registered links, implicitly skipped = strictly between a finalized block and its registered
+         parent, watermark = end of the decided prefix, highest = highest directly finalized slot, every finalized
+         block (slot > 0) and skipped slot reported exactly once;
+     (8) no premise: C08_pool_monotone (watermark and highest finalized slot never decrease along any pool run),
+         C08_held_certificates_are_H_on_retained_slots (everything stored in a slot state is in H; H restricted to
+         slots >= watermark is still stored: pruning drops exactly decided slots and nothing else),
+         C08_reachable_pool_retains_nothing_below_watermark (no slot state below the watermark in ANY reachable pool,
+         also in the middle of a vote that creates several certificates);
+     (9) the oracle's executable specification is the relational one: C08_oracle_finals_star_is_FinalStar (all blocks
+         but genesis, which the oracle lists separately), _skipped_star_is_SkippedStar, _spec_decided_is_Decided, and
+         C08_oracle_clauses_hold_of_model: highest = max_slot_of (direct_finals H), watermark = decided_prefix .. H B 0
+         hold of the model in every reachable consistent pool.
+   REMAINS ORACLE-ONLY: that ft_consistent holds of the certificates a node can hold when < 20% of the stake is
+   Byzantine (it is a premise here; C01's subject), and the model / implementation correspondence itself (that the
+   implementation emits the same certificate events, so that the oracle's all_certs / all_blocks are H / B). The
+   far-future bound is out_of_bounds by definition (Proofs/TrackerProofs.v out_of_bounds_spec). The parent-ready side
+   of the link is in Props/C07.v. *)
 From Coq Require Import List NArith Bool.
-From AG Require Import Gen.Params Model.Pool Model.PoolSpec Model.FinalitySpec Proofs.TrackerProofs Proofs.FinalityProofs.
+From AG Require Import Gen.Params Model.Pool Model.PoolSpec Model.TrackerSpec Model.FinalitySpec Model.PoolTrace
+     Oracle.PoolRun Proofs.TrackerProofs Proofs.FinalityProofs Proofs.PoolMarks Proofs.PoolHeld Proofs.PoolOracleSpec.
 Import ListNotations.
 Open Scope N_scope.
 
@@ -224,6 +253,107 @@ Proof. exact nb_ops_run. Qed.
 Example C08_nonvacuous_late_notarization_of_other_block : exists t evs, ft_run ft_init nb_ops2 = Some (t, evs) /\
   ft_view t 2 = VFinal 21 /\ all_final_events evs = [(3, 31); (2, 21)] /\ ft_first t = 0.
 Proof. exact nb_ops2_run. Qed.
+(* ---------- the certificate-to-mark link: WHICH operations the pool issues to its finality tracker ---------- *)
+(* every pool reachable from pool_init by any pool_step sequence (panicking steps included: they change no tracker);
+   g_trace = ghost trace read off the observable step results (Model/PoolTrace.v) *)
+Theorem C08_pool_finality_marks : forall e ops,
+  let g := ghost_run e ops in
+  let H := held_certs (g_trace g) in let B := reg_links (g_trace g) in
+  (exists fevs, ft_run ft_init (fops_of (g_trace g)) = Some (p_ft (g_pool g), fevs)) /\
+  H = ev_certs (g_events g) /\
+  (forall b, In (TNotar b) (fops_of (g_trace g)) <-> has_notar_cert H b = true) /\
+  (forall b, In (TFast b) (fops_of (g_trace g)) <-> has_ff_cert H b = true) /\
+  (forall s, In (TFinal s) (fops_of (g_trace g)) <-> has_final_cert H s = true) /\
+  (forall b par, In (TParent b par) (fops_of (g_trace g)) <-> In (b, par) B) /\
+  same_marks (fops_of (g_trace g)) (cert_hist H B).
+Proof. exact pool_finality_marks. Qed.
+
+Theorem C08_ghost_run_is_pool_run : forall e ops,
+  g_pool (ghost_run e ops) = fold_left (fun p op => fst (fst (pool_step e p op))) ops pool_init.
+Proof. exact ghost_run_pool. Qed.
+
+Theorem C08_direct_finalization_in_certificates : forall H B b,
+  Direct (cert_hist H B) b <->
+  has_ff_cert H b = true \/ (has_final_cert H (fst b) = true /\ (b = (0, 0) \/ has_notar_cert H b = true)).
+Proof. exact Direct_certs. Qed.
+
+Theorem C08_consistency_premise_is_order_independent : forall C H H',
+  same_marks H H' -> ft_consistent C H = ft_consistent C H'.
+Proof. exact ft_consistent_same. Qed.
+
+(* C08 at certificate level: status = closure of direct finalization (by H) under the registered links (B),
+   watermark = decided prefix, highest = highest directly finalized slot *)
+Theorem C08_pool_finality_certificate_level : forall e ops (C : slot -> option hash),
+  let g := ghost_run e ops in let p := g_pool g in
+  let H := held_certs (g_trace g) in let B := reg_links (g_trace g) in
+  ft_consistent C (cert_hist H B) = true ->
+  (forall s, first_unpruned p <= s -> ft_view (p_ft p) s = spec_view (fops_of (g_trace g)) s) /\
+  (forall s h, first_unpruned p <= s -> (ft_view (p_ft p) s = VFinal h <-> FinalStar (cert_hist H B) (s, h))) /\
+  (forall s, first_unpruned p <= s -> (ft_view (p_ft p) s = VSkipped <-> SkippedStar (cert_hist H B) s)) /\
+  (forall s, 0 < s <= first_unpruned p -> Decided (cert_hist H B) s) /\
+  ~ Decided (cert_hist H B) (first_unpruned p + 1) /\
+  (forall b, Direct (cert_hist H B) b -> fst b <= finalized_slot p) /\
+  (finalized_slot p = 0 \/ exists b, Direct (cert_hist H B) b /\ fst b = finalized_slot p) /\
+  (forall s v, In (s, v) (ft_status (p_ft p)) -> first_unpruned p <= s) /\
+  (forall b par, In (b, par) (ft_parents (p_ft p)) -> first_unpruned p <= fst b).
+Proof. exact pool_finality_certificate_level. Qed.
+
+Theorem C08_pool_finality_events_certificate_level : forall e ops (C : slot -> option hash),
+  let g := ghost_run e ops in let p := g_pool g in
+  let H := held_certs (g_trace g) in let B := reg_links (g_trace g) in
+  ft_consistent C (cert_hist H B) = true ->
+  exists fevs, ft_run ft_init (fops_of (g_trace g)) = Some (p_ft p, fevs) /\
+    NoDup (all_final_events fevs) /\ NoDup (all_skip_events fevs) /\
+    (forall x, In x (all_final_events fevs) -> FinalStar (cert_hist H B) x) /\
+    (forall x, FinalStar (cert_hist H B) x -> 0 < fst x -> In x (all_final_events fevs)) /\
+    (forall s, In s (all_skip_events fevs) <-> SkippedStar (cert_hist H B) s).
+Proof. exact pool_finality_events_certificate_level. Qed.
+
+(* no premise: watermark and highest finalized slot never decrease along any pool run *)
+Theorem C08_pool_monotone : forall e ops1 ops2,
+  first_unpruned (g_pool (ghost_run e ops1)) <= first_unpruned (g_pool (ghost_run e (ops1 ++ ops2))) /\
+  finalized_slot (g_pool (ghost_run e ops1)) <= finalized_slot (g_pool (ghost_run e (ops1 ++ ops2))).
+Proof. exact pool_monotone. Qed.
+
+(* the ghost H against the certificates stored NOW: everything stored is in H, and H restricted to the slots at or above
+   the watermark is still stored (what is missing was decided and pruned) *)
+Theorem C08_held_certificates_are_H_on_retained_slots : forall e ops,
+  let g := ghost_run e ops in
+  (forall s c, In c (certs_of_slot (p_ss (g_pool g) s)) -> In c (held_certs (g_trace g)) /\ c_slot c = s) /\
+  (forall c, In c (held_certs (g_trace g)) -> first_unpruned (g_pool g) <= c_slot c ->
+             In c (certs_of_slot (p_ss (g_pool g) (c_slot c)))).
+Proof. exact held_is_retained_ghost. Qed.
+
+Theorem C08_reachable_pool_retains_nothing_below_watermark : forall e ops s ss,
+  In (s, ss) (p_slots (g_pool (ghost_run e ops))) -> first_unpruned (g_pool (ghost_run e ops)) <= s.
+Proof. exact reachable_retains_nothing_old. Qed.
+
+(* ---------- the oracle's executable specification (Oracle/PoolRun.v) IS the relational one ---------- *)
+Theorem C08_oracle_finals_star_is_FinalStar : forall cs blocks,
+  (forall b par, In (b, par) blocks -> fst par < fst b) ->
+  forall b, b <> (0, 0) -> (bmem b (finals_star cs blocks) = true <-> FinalStar (cert_hist cs blocks) b).
+Proof. exact finals_star_iff. Qed.
+
+Theorem C08_oracle_skipped_star_is_SkippedStar : forall cs blocks,
+  (forall b par, In (b, par) blocks -> fst par < fst b) ->
+  forall t, skipped_star (finals_star cs blocks) blocks t = true <-> SkippedStar (cert_hist cs blocks) t.
+Proof. exact skipped_star_iff. Qed.
+
+Theorem C08_oracle_spec_decided_is_Decided : forall cs blocks,
+  (forall b par, In (b, par) blocks -> fst par < fst b) ->
+  forall t, 0 < t -> (spec_decided cs blocks t = true <-> Decided (cert_hist cs blocks) t).
+Proof. exact spec_decided_iff. Qed.
+
+(* the finality clauses of c08_step_ok (highest = max of the direct finals, watermark = decided_prefix, nothing older
+   retained by the tracker) hold of the MODEL in every reachable pool whose certificates are consistent *)
+Theorem C08_oracle_clauses_hold_of_model : forall e ops (C : slot -> option hash),
+  let g := ghost_run e ops in let p := g_pool g in
+  let H := held_certs (g_trace g) in let B := reg_links (g_trace g) in
+  ft_consistent C (cert_hist H B) = true ->
+  finalized_slot p = max_slot_of (direct_finals H) /\
+  first_unpruned p = decided_prefix (S (length H + length B + N.to_nat (finalized_slot p))) H B 0 /\
+  (forall s ss, In (s, ss) (ft_status (p_ft p)) -> first_unpruned p <= s).
+Proof. exact oracle_c08_clauses_hold_of_model. Qed.
 
 (* the hypotheses are satisfiable by a history with finalization before notarization, a child link before the
    parent link, a gap, and marks / links for slots already decided; and the run does what the theorems say *)
@@ -233,6 +363,24 @@ Example C08_nonvacuous_run : exists t evs, ft_run ft_init ex_ops = Some (t, evs)
   ft_first t = 5 /\ ft_highest t = 5 /\
   all_final_events evs = [(5, 5); (3, 3); (1, 1)] /\ all_skip_events evs = [4; 2].
 Proof. exact ex_ops_run. Qed.
+
+(* the pool-level hypotheses are satisfiable: certificates created from votes and received ones, a finalization
+   certificate before the notarization certificate, a child link before the parent link, a gap, a certificate for a
+   slot already decided (refused), a waiter; lk_ops / lk_chain in Proofs/PoolMarks.v *)
+Example C08_pool_link_nonvacuous :
+  let g := ghost_run lk_epoch lk_ops in
+  let H := held_certs (g_trace g) in let B := reg_links (g_trace g) in
+  ft_consistent lk_chain (cert_hist H B) = true /\ slot0_genesis_only H B = true /\
+  p_panicked (g_pool g) = false /\
+  map (fun c => (c_slot c, c_kind c)) H =
+    [(1, CNotarFb 7); (1, CNotar 7); (1, CFastFinal 7); (3, CFinal); (2, CSkip); (3, CNotar 3); (5, CFastFinal 5);
+     (6, CSkip); (7, CSkip)] /\
+  B = [((5, 5), (3, 3)); ((3, 3), (1, 7))] /\
+  first_unpruned (g_pool g) = 5 /\ finalized_slot (g_pool g) = 5 /\
+  pt_parents_ready (p_prt (g_pool g)) 8 = [(5, 5)] /\
+  ev_prs (g_events g) = [(4, (3, 3)); (8, (5, 5))] /\ ev_wk (g_events g) = [EWaiterWoken 8 (5, 5)] /\
+  ready_specb H B 8 (5, 5) = true /\ ready_specb H B 8 (3, 3) = false.
+Proof. exact lk_example. Qed.
 
 Print Assumptions C08_prune_lossless.
 Print Assumptions C08_pool_retains_only_undecided_suffix.
@@ -264,3 +412,17 @@ Print Assumptions C08_pinned_variant_differs_only_by_flag.
 Print Assumptions C08_nonvacuous_notarized_other_block.
 Print Assumptions C08_nonvacuous_notarized_other_block_run.
 Print Assumptions C08_nonvacuous_late_notarization_of_other_block.
+Print Assumptions C08_pool_finality_marks.
+Print Assumptions C08_ghost_run_is_pool_run.
+Print Assumptions C08_direct_finalization_in_certificates.
+Print Assumptions C08_consistency_premise_is_order_independent.
+Print Assumptions C08_pool_finality_certificate_level.
+Print Assumptions C08_pool_finality_events_certificate_level.
+Print Assumptions C08_pool_monotone.
+Print Assumptions C08_pool_link_nonvacuous.
+Print Assumptions C08_held_certificates_are_H_on_retained_slots.
+Print Assumptions C08_oracle_finals_star_is_FinalStar.
+Print Assumptions C08_oracle_skipped_star_is_SkippedStar.
+Print Assumptions C08_oracle_spec_decided_is_Decided.
+Print Assumptions C08_oracle_clauses_hold_of_model.
+Print Assumptions C08_reachable_pool_retains_nothing_below_watermark.
